@@ -83,7 +83,7 @@ struct Runner
         auto src_form = [&](uint64_t id) { return (id + static_cast<uint64_t>(cno)) % 4 == 1 ? 1 : (id + static_cast<uint64_t>(cno)) % 4 == 3 ? 2 : 0; };
         auto ctx = [&](const char* op, const std::string& args)
         {
-            set_ctx(cno, step++, op, cfg_str, out().extra_props[0] ? "C02,C03,C04,C05,C01,C10" : "C02,C03,C04,C05,C01", args.c_str());
+            set_ctx(cno, step++, op, cfg_str, (std::string("C02,C03,C04,C05,C01") + (out().extra_props[0] ? "," : "") + out().extra_props).c_str(), args.c_str());
             ++stats.ops[op];
             ++stats.steps;
             if (trace.size() < 40) trace.push_back(std::string(op) + "(" + args + ")");
@@ -165,13 +165,19 @@ struct Runner
         v.emplace(construct(m.cap, m.budget, m.fixed, m.arena));
         auto check = [&](const char* op) { return out().viol_in_case == 0 && Mon::check(*v, m, op, cfg_str, "v") && (ledger().check_all_canaries(), out().viol_in_case == 0); };
         if (!check("construct")) return;
+        // in the C15 check (--focus C15) whatever is wrong right after an emplace_back into the fresh vector is C15's as well: the
+        // stored objects must equal the source items whatever the list around the span looks like (empty spans included)
+        const bool c15 = out().focus == "C15";
         for (auto& e : plan)
         {
+            if (c15) out().extra_props = "C15";
             ctx("emplace_back", fmt("id=%" PRIu64 ",counts=%s,src=%d", e.id, jarr_num(counts_of(e)).c_str(), src_form(e.id)));
             G::emplace_back(*v, e, src_form(e.id));
             m.e.push_back(e);
             ++stats.elements;
-            if (!check("emplace_back")) return;
+            const bool ok = check("emplace_back");
+            if (c15) out().extra_props = "";
+            if (!ok) return;
         }
         if (m.cap >= 2) nontrivial = true;
         // erase / refill cycles that stay within (N, B)
